@@ -53,12 +53,17 @@ HOLDERS = {
     "world_iter_destroyed": ("World::iter_destroyed", "let mut h = world.iter_destroyed();", "let _x = h.next().is_some();"),
     "arch_iter_created": ("Archetype::iter_created", "let mut h = world.arch_foo.iter_created();", "let _x = h.next().is_some();"),
     "arch_iter_destroyed": ("Archetype::iter_destroyed", "let mut h = world.arch_foo.iter_destroyed();", "let _x = h.next().is_some();"),
+    # handle REFERENCES that borrow from the world, converted reference-to-reference
+    "entities_elem_as_any_ref": ("Archetype::entities", "let h: &EntityAny = (&world.arch_foo.entities()[0]).into();", "let _x = h.archetype_id();"),
+    "iter_item_entity_as_any_ref": ("Archetype::iter", "let h: &EntityAny = world.arch_foo.iter().next().unwrap().0.into();", "let _x = h.archetype_id();"),
+    "borrow_entity_as_any_ref": ("Borrow::entity", "let b = world.borrow::<ArchFoo, _>(e).unwrap(); let h: &EntityAny = b.entity().into();", "let _x = h.archetype_id();"),
 }
 
 # holders obtained through an outer holder: the chain of API items from the world to the hold
 CHAINS = {
     "borrow_component": ["World::borrow"], "borrow_component_mut": ["World::borrow"], "borrow_entity": ["World::borrow"],
     "view_component": ["World::view"], "view_component_mut": ["World::view"],
+    "borrow_entity_as_any_ref": ["World::borrow"],
 }
 
 # structural operation name -> (sig item or None for macro / std, statement)
@@ -82,11 +87,32 @@ def program(body):
     return PRELUDE + body + "\n}\n"
 
 
-def gen_corpus(sigs):
+def ref_impl_probes(ref_impls):
+    """One stretch program (+ twin) per reference conversion impl found in src/** by the translator."""
+    probes = []
+    for n, r in enumerate(ref_impls):
+        if r.get("trait") != "From" or not r.get("src_ref"):
+            probes.append({"name": f"uncovered_refimpl_{n}", "src": None, "expect": "missing-template", "why": f"reference impl `{r.get('text')}` has no probe template"})
+            continue
+        src, dst = r["src"], r["dst"]
+        for tp in r.get("type_params", []):
+            src = re.sub(r"\b%s\b" % re.escape(tp), "ArchFoo", src)
+            dst = re.sub(r"\b%s\b" % re.escape(tp), "ArchFoo", dst)
+        m = "mut " if r.get("mut") else ""
+        tn = re.sub(r"\W", "", r["src"]) + ("_mut" if r.get("mut") else "")
+        bad = program(f"    fn stretch<'s>(x: &'s {m}{src}) -> &'static {m}{dst} {{ x.into() }}")
+        twin = program(f"    fn same<'s>(x: &'s {m}{src}) -> &'s {m}{dst} {{ x.into() }}")
+        probes.append({"name": f"bad_stretch_ref_{tn}", "src": bad, "expect": "fail", "codes": None, "msg": "lifetime may not live long enough",
+                       "why": f"`{r['text']}`: the converted reference must not outlive the reference it was made from"})
+        probes.append({"name": f"twin_stretch_ref_{tn}", "src": twin, "expect": "ok", "why": "same lifetime on both sides"})
+    return probes
+
+
+def gen_corpus(sigs, ref_impls=None):
     """sigs: list of {item, recv, borrows} from Gen/sigs.json.  Returns list of probes:
     {name, src, expect: 'fail'|'ok', codes: set|None, msg: str|None, why}"""
     by_item = {s["item"]: s for s in sigs}
-    probes = []
+    probes = ref_impl_probes(ref_impls or [])
     covered = set()
     for hn, (item, hold, use) in HOLDERS.items():
         sig = by_item.get(item)
@@ -122,6 +148,8 @@ def gen_corpus(sigs):
         twin = program(f"    let mut sum = 0u32;\n    {call.replace('keep = Some(c);', 'sum += c.0;')}\n    world.destroy(e2);")
         probes.append({"name": f"bad_closure_arg_{mac}", "src": bad, "expect": "fail", "codes": BORROW_CODES, "why": f"keep a closure argument of ecs_{mac}! across destroy"})
         probes.append({"name": f"twin_closure_arg_{mac}", "src": twin, "expect": "ok", "why": "use the argument inside the closure only"})
+    bad = program("    let mut keep: Option<&EntityAny> = None;\n    ecs_iter!(world, |en: &Entity<ArchFoo>| { keep = Some(en.into()); });\n    world.destroy(e2);\n    let _x = keep.unwrap().archetype_id();")
+    probes.append({"name": "bad_closure_arg_entity_ref_as_any", "src": bad, "expect": "fail", "codes": BORROW_CODES | {None}, "why": "keep a converted entity-handle reference of a closure across destroy"})
     # two mutable accesses to one component in one query
     for mac, bad_call, ok_call in (
             ("iter", "ecs_iter!(world, |a: &mut CompA, b: &mut CompA| { a.0 += b.0; });", "ecs_iter!(world, |a: &mut CompA, b: &CompB| { a.0 += b.0; });"),
